@@ -33,7 +33,7 @@ func main() {
 		Level: "exploration",
 		Rule: "real martian.Proxy per case; (1) gate family: 1-3 connections parked by harness gates at one of six progress points each (idle, mid request head, inside request modifier, " +
 			"during round trip, inside response modifier, response being written into a full 16 KiB pipe), Close() started, Closing() observed, parked exchanges released one at a time in every order " +
-			"(all assignments x orders for 1-2 connections in quick, also for 3 in thorough), late connections dialled during and after shutdown; exchange shapes (GET, pipelined GET+GET, POST with a body streamed at once or arriving late, failing round trip => 502, small response, origin body stalling half way) swept over every in-flight point and drawn by PRNG elsewhere; slow-close variants; (2) hook family: a handler held at " +
+			"(all assignments x orders for 1-2 connections in quick, also for 3 in thorough), late connections dialled during and after shutdown; exchange shapes (GET, pipelined GET+GET, POST with a body streamed at once or arriving late, failing round trip => 502, small response, origin body stalling half way) swept over every in-flight point and drawn by PRNG elsewhere; slow-close variants; a loopback-TCP sample with 2-4 MiB responses read slowly; cases with SetTimeout(200 ms) whose exchanges stay parked beyond it; (2) hook family: a handler held at " +
 			"proxy.handleLoop.beforeRegister across Close; (3) accept-vs-Close races: 2-8 connections dialled in a tight loop while Close runs, PRNG delays at the hook, in-memory and loopback TCP, under the race detector. " +
 			"A class is a (point assignment, release order) tuple executed with its oracle, a hook placement, or a distinct accept/close interleaving observed (hook position relative to Closing/Close-return x connection outcome)",
 		Assumptions: []string{
@@ -95,16 +95,19 @@ type ccase struct {
 	SlowClose bool   `json:"slow_close,omitempty"` // the proxy-side connections block inside Close() until the harness lets them
 	Hook      string `json:"hook,omitempty"`       // hook family: placement
 	Transport string `json:"transport,omitempty"`
-	Attrs     []attr `json:"attrs,omitempty"` // gates: shape of the exchange on each connection
+	Attrs     []attr `json:"attrs,omitempty"`      // gates: shape of the exchange on each connection
+	TimeoutMS int    `json:"timeout_ms,omitempty"` // Proxy.SetTimeout; 0: 10 min. If set, the parked exchanges are held for longer than it
 }
 
 // attr is the shape of the exchange a connection carries.
 type attr struct {
-	Pipe   bool   `json:"pipelined,omitempty"` // a second GET is written together with the request
-	Body   string `json:"body,omitempty"`      // "" (GET) | large (POST, body streamed at once) | slow (POST + Expect, rest of the body sent late)
-	RTFail bool   `json:"rt_fail,omitempty"`   // the round trip fails: the proxy answers 502
-	Stall  bool   `json:"stall,omitempty"`     // point "writing": the origin body stalls half way (instead of a client that does not read)
-	Small  bool   `json:"small,omitempty"`     // small response body (fits the proxy's write buffer)
+	Pipe   bool   `json:"pipelined,omitempty"`   // a second GET is written together with the request
+	Body   string `json:"body,omitempty"`        // "" (GET) | large (POST, body streamed at once) | slow (POST + Expect, rest of the body sent late)
+	RTFail bool   `json:"rt_fail,omitempty"`     // the round trip fails: the proxy answers 502
+	Stall  bool   `json:"stall,omitempty"`       // point "writing": the origin body stalls half way (instead of a client that does not read)
+	Small  bool   `json:"small,omitempty"`       // small response body (fits the proxy's write buffer)
+	Big    bool   `json:"big,omitempty"`         // 2-4 MiB response body
+	SlowRd bool   `json:"slow_reader,omitempty"` // the client reads the response slowly (<=16 KiB per read, pauses)
 }
 
 func (a attr) String() string {
@@ -123,6 +126,12 @@ func (a attr) String() string {
 	}
 	if a.Small {
 		f = append(f, "small")
+	}
+	if a.Big {
+		f = append(f, "big")
+	}
+	if a.SlowRd {
+		f = append(f, "slow-reader")
 	}
 	if len(f) == 0 {
 		return "get"
@@ -489,7 +498,13 @@ func (c *cconn) read(expectBody int) {
 			if want >= 0 && want-got < m {
 				m = want - got
 			}
+			if c.attr.SlowRd && m > 16384 {
+				m = 16384
+			}
 			n, err := br.Read(buf[:m])
+			if c.attr.SlowRd {
+				time.Sleep(300 * time.Microsecond)
+			}
 			if n > 0 {
 				if got+n > len(exp) || !bytes.Equal(buf[:n], exp[got:got+n]) {
 					bad = true
@@ -584,6 +599,9 @@ func newWorld(r *vh.Run, c ccase, budget *tunx.Budget, tcp bool) (*world, error)
 	w := &world{r: r, c: c, budget: budget, exchs: map[int]*exch{}, gates: map[[2]int]chan struct{}{}, bodyLen: map[int]int{}, reqBody: map[int]int{}, rtFail: map[int]bool{}, stall: map[int]bool{}, bodyErr: map[int]string{}, serveDone: make(chan struct{})}
 	p := martian.NewProxy()
 	p.SetTimeout(proxyTimeout)
+	if c.TimeoutMS > 0 {
+		p.SetTimeout(time.Duration(c.TimeoutMS) * time.Millisecond)
+	}
 	p.SetRoundTripper(w)
 	p.SetRequestModifier(w)
 	p.SetResponseModifier(w)
@@ -978,7 +996,7 @@ func (w *world) release(c *cconn) {
 }
 
 func runGates(r *vh.Run, c ccase, budget *tunx.Budget) {
-	w, err := newWorld(r, c, budget, false)
+	w, err := newWorld(r, c, budget, c.Transport == "tcp")
 	if err != nil {
 		r.Inconclusive("listen: "+err.Error(), nil)
 		return
@@ -995,6 +1013,9 @@ func runGates(r *vh.Run, c ccase, budget *tunx.Budget) {
 		w.bodyLen[i] = rng.Intn(40000)
 		if a.Small {
 			w.bodyLen[i] = 50 + rng.Intn(1500)
+		}
+		if a.Big {
+			w.bodyLen[i] = 2<<20 + rng.Intn(2<<20)
 		}
 		if pt == ptWriting && !a.Stall {
 			w.bodyLen[i] = bigBody
@@ -1043,6 +1064,14 @@ func runGates(r *vh.Run, c ccase, budget *tunx.Budget) {
 	if !w.setup("Closing() becomes true", w.p.Closing) {
 		return
 	}
+	if c.TimeoutMS > 0 {
+		// hold the parked exchanges for longer than the proxy timeout (a lower
+		// bound: nothing is decided by this sleep; Close must simply still be
+		// waiting afterwards, however long the exchanges take)
+		time.Sleep(time.Duration(2*c.TimeoutMS+100) * time.Millisecond)
+		vh.Settle(w.activity, 3, 30*time.Millisecond, 3*time.Second)
+		r.Count("cases_parked_longer_than_the_proxy_timeout", 1)
+	}
 	var lates []*cconn
 	dialLate := func(id int, when string) {
 		lc := w.dial(id, -1, " late-"+when)
@@ -1072,7 +1101,12 @@ func runGates(r *vh.Run, c ccase, budget *tunx.Budget) {
 			}) {
 			return
 		}
-		w.checkExchange(cc, ptName[cc.point])
+		if c.TimeoutMS == 0 {
+			w.checkExchange(cc, ptName[cc.point])
+		}
+		// (parked beyond the proxy timeout: the deadline the proxy itself put
+		// on the client connection has expired, it closes the connection
+		// instead of answering; only the ordering clauses are checked)
 		_ = k
 	}
 
@@ -1142,6 +1176,12 @@ func runGates(r *vh.Run, c ccase, budget *tunx.Budget) {
 	sc := ""
 	if c.SlowClose {
 		sc = ":slow-conn-close"
+	}
+	if c.Transport == "tcp" {
+		sc += ":tcp"
+	}
+	if c.TimeoutMS > 0 {
+		sc += ":parked-beyond-timeout"
 	}
 	r.Class("gates:" + strings.Join(ps, ",") + ":order=" + strings.Join(os, "") + ":late=" + c.Late + sc)
 	r.Count("events_observed", atomic.LoadInt64(&w.seq))
@@ -1257,6 +1297,31 @@ func allGateCases(r *vh.Run, thorough bool) []ccase {
 			v := cs[i]
 			v.SlowClose = true
 			cs = append(cs, v)
+		}
+	}
+	// loopback TCP (real close semantics): in-flight points only, a big response read slowly
+	bigSlow := attr{Big: true, SlowRd: true}
+	for p0 := ptReqMod; p0 <= ptResMod; p0++ {
+		cs = append(cs, ccase{Kind: "gates", Transport: "tcp", Points: []int{p0}, Order: []int{0}, Attrs: []attr{bigSlow}})
+		cs = append(cs, ccase{Kind: "gates", Transport: "tcp", Points: []int{p0}, Order: []int{0}, Attrs: []attr{{}}})
+		for p1 := ptReqMod; p1 <= ptResMod; p1++ {
+			for _, o := range [][]int{{0, 1}, {1, 0}} {
+				cs = append(cs, ccase{Kind: "gates", Transport: "tcp", Points: []int{p0, p1}, Order: o, Attrs: []attr{bigSlow, {Big: p1 == ptRoundTrip}}})
+			}
+		}
+	}
+	// proxy timeout shorter than the time the exchanges stay parked
+	for p0 := ptReqMod; p0 <= ptResMod; p0++ {
+		cs = append(cs, ccase{Kind: "gates", Points: []int{p0}, Order: []int{0}, Attrs: []attr{{}}, TimeoutMS: 200})
+		for p1 := ptIdle; p1 <= ptResMod; p1++ {
+			if p1 == ptMidHead {
+				continue
+			}
+			o := []int{0, 1}
+			if p1 == ptIdle {
+				o = []int{0}
+			}
+			cs = append(cs, ccase{Kind: "gates", Points: []int{p0, p1}, Order: o, Attrs: []attr{{}, {}}, TimeoutMS: 200})
 		}
 	}
 	for i := range cs {
